@@ -34,12 +34,30 @@ type Buf struct {
 	Pages   int  `json:"pages"`
 }
 
-// Step is one migration: page Page of buffer Buf is requested by GPU To.
-type Step struct {
+// PageRef names one page of a unified buffer.
+type PageRef struct {
 	Buf  int `json:"buf"`
 	Page int `json:"page"`
-	To   int `json:"to"`  // 1-based requesting GPU, differs from the page's host at that time
-	Gap  int `json:"gap"` // cycles after the previous migration was reported to the MMU
+}
+
+// Step is one migration request: page Page of buffer Buf is requested by GPU To.
+//
+// More lists further pages carried by the SAME request (all live on the same
+// host GPU as the first page and are requested by the same GPU). akita's shipped
+// MMU sends one page per request; the message format (map[gpu][]vaddr) and the
+// driver code (one PageMigrationReqToCP per listed page, per-page
+// acknowledgement counting) provide for several, so such requests are a
+// generated, labelled extension of the domain like MultiHop.
+type Step struct {
+	Buf  int       `json:"buf"`
+	Page int       `json:"page"`
+	To   int       `json:"to"`  // 1-based requesting GPU, differs from the page's host at that time
+	Gap  int       `json:"gap"` // cycles after the previous migration was reported to the MMU
+	More []PageRef `json:"more,omitempty"`
+}
+
+func (s Step) pages() []PageRef {
+	return append([]PageRef{{s.Buf, s.Page}}, s.More...)
 }
 
 // DriverCase is one generated case of stage "driver".
@@ -81,10 +99,14 @@ func genDriverCase(t *rapid.T) DriverCase {
 	}
 	c.MMU = CtrlCfg{InBuf: 1, OutBuf: 1, RecvPeriod: rapid.SampledFrom([]int{1, 1, 3, 20}).Draw(t, "mmuperiod")}
 	c.MultiHop = rapid.IntRange(0, 3).Draw(t, "multihop") == 0
+	multiPage := rapid.IntRange(0, 3).Draw(t, "multipage") == 0
 	nb := rapid.IntRange(1, 6).Draw(t, "nbufs")
 	var unified []int
 	for i := 0; i < nb; i++ {
 		b := Buf{Pages: rapid.IntRange(1, 4).Draw(t, "pages")}
+		if multiPage && i == 0 {
+			b.Pages = rapid.IntRange(3, 5).Draw(t, "pages0")
+		}
 		if i == 0 || rapid.Bool().Draw(t, "unified") {
 			b.Unified = true
 			b.GPU = 1
@@ -118,8 +140,32 @@ func genDriverCase(t *rapid.T) DriverCase {
 		if s.To >= h {
 			s.To++
 		}
-		host[key] = s.To
-		moved[key] = true
+		if multiPage && rapid.IntRange(0, 2).Draw(t, "carrymore") > 0 {
+			// further pages of unified buffers that live on the same host
+			var cands []PageRef
+			for _, bi := range unified {
+				for p := 0; p < c.Bufs[bi].Pages; p++ {
+					k := [2]int{bi, p}
+					hk := host[k]
+					if hk == 0 {
+						hk = 1
+					}
+					if k != key && hk == h && (c.MultiHop || !moved[k]) {
+						cands = append(cands, PageRef{bi, p})
+					}
+				}
+			}
+			want := rapid.IntRange(1, 3).Draw(t, "nmore")
+			for len(s.More) < want && len(cands) > 0 {
+				j := rapid.IntRange(0, len(cands)-1).Draw(t, "morepick")
+				s.More = append(s.More, cands[j])
+				cands = append(cands[:j], cands[j+1:]...)
+			}
+		}
+		for _, pr := range s.pages() {
+			host[[2]int{pr.Buf, pr.Page}] = s.To
+			moved[[2]int{pr.Buf, pr.Page}] = true
+		}
 		s.Gap = rapid.SampledFrom([]int{0, 0, 1, 5, 30, 150}).Draw(t, "gap")
 		c.Steps = append(c.Steps, s)
 	}
@@ -143,6 +189,7 @@ func (c DriverCase) deviceRange(g int) (lo, hi uint64) {
 type cpReply struct {
 	ready uint64
 	msg   sim.Msg
+	mig   int // index into the list of received page-migration requests, -1 for other replies
 }
 
 // RunDriverCase executes one case of stage "driver".
@@ -234,10 +281,11 @@ func RunDriverCase(c DriverCase) (res stats.Result) {
 	var problems []string
 	// command processors
 	type migReq struct {
-		gpu int
-		msg *protocol.PageMigrationReqToCP
+		gpu      int
+		msg      *protocol.PageMigrationReqToCP
+		answered bool // the command processor has sent its PageMigrationRspToDriver
 	}
-	var migReqs []migReq
+	var migReqs []*migReq
 	for g := 0; g < c.GPUs; g++ {
 		g := g
 		var replies []cpReply
@@ -248,13 +296,15 @@ func RunDriverCase(c DriverCase) (res stats.Result) {
 				if msg := cpPorts[g].RetrieveIncoming(); msg != nil {
 					progress = true
 					var rsp sim.Msg
+					mig := -1
 					switch m := msg.(type) {
 					case *protocol.RDMADrainCmdFromDriver:
 						rsp = protocol.NewRDMADrainRspToDriver(cpPorts[g], gpuPort)
 					case *protocol.ShootDownCommand:
 						rsp = protocol.NewShootdownCompleteRsp(cpPorts[g], gpuPort)
 					case *protocol.PageMigrationReqToCP:
-						migReqs = append(migReqs, migReq{g + 1, m})
+						mig = len(migReqs)
+						migReqs = append(migReqs, &migReq{gpu: g + 1, msg: m})
 						rsp = protocol.NewPageMigrationRspToDriver(cpPorts[g], gpuPort)
 					case *protocol.GPURestartReq:
 						rsp = protocol.NewGPURestartRsp(cpPorts[g], gpuPort)
@@ -270,7 +320,7 @@ func RunDriverCase(c DriverCase) (res stats.Result) {
 						if len(replies) > 0 && replies[len(replies)-1].ready > ready {
 							ready = replies[len(replies)-1].ready // a CP answers in order
 						}
-						replies = append(replies, cpReply{ready, rsp})
+						replies = append(replies, cpReply{ready, rsp, mig})
 					}
 				}
 			} else if cpPorts[g].PeekIncoming() != nil {
@@ -282,6 +332,9 @@ func RunDriverCase(c DriverCase) (res stats.Result) {
 				}
 				if err := cpPorts[g].Send(replies[0].msg); err != nil {
 					panic("harness: send failed after CanSend")
+				}
+				if replies[0].mig >= 0 {
+					migReqs[replies[0].mig].answered = true
 				}
 				replies = replies[1:]
 				progress = true
@@ -298,23 +351,35 @@ func RunDriverCase(c DriverCase) (res stats.Result) {
 	var current *vm.PageMigrationReqToDriver
 	rspCount := make([]int, len(c.Steps))
 	overlapped := false // a request was handed over while the previous handshake was still restarting GPUs
+	migBase := 0        // page-migration requests the command processors should have received before the current step
 	judge := func(step int) {
 		s := c.Steps[step]
-		va := vaddrOf[pageKey{s.Buf, s.Page}]
-		old := model[va]
+		var vas []uint64
+		inStep := map[uint64]bool{}
+		for _, pr := range s.pages() {
+			va := vaddrOf[pageKey{pr.Buf, pr.Page}]
+			vas = append(vas, va)
+			inStep[va] = true
+		}
+		olds := map[uint64]vm.Page{}
+		for _, va := range vas {
+			olds[va] = model[va]
+		}
+		lo, hi := c.deviceRange(s.To)
+		news := map[uint64]vm.Page{}
 		for _, other := range allVAddrs {
 			pg, ok := pt.Find(pid, other)
 			if !ok {
 				problems = append(problems, fmt.Sprintf("after migration %d the page table has no entry for virtual page 0x%x", step, other))
 				continue
 			}
-			if other != va {
+			if !inStep[other] {
 				if pg != model[other] {
-					problems = append(problems, fmt.Sprintf("migration %d of virtual page 0x%x changed the mapping of another virtual page 0x%x: %+v -> %+v", step, va, other, model[other], pg))
+					problems = append(problems, fmt.Sprintf("migration %d of virtual pages %x changed the mapping of another virtual page 0x%x: %+v -> %+v", step, vas, other, model[other], pg))
 				}
 				continue
 			}
-			lo, hi := c.deviceRange(s.To)
+			va, old := other, olds[other]
 			switch {
 			case pg.PID != old.PID || pg.VAddr != old.VAddr || pg.PageSize != old.PageSize || !pg.Valid:
 				problems = append(problems, fmt.Sprintf("migration %d: entry of virtual page 0x%x damaged: %+v -> %+v", step, va, old, pg))
@@ -325,30 +390,73 @@ func RunDriverCase(c DriverCase) (res stats.Result) {
 			case pg.PAddr == old.PAddr:
 				problems = append(problems, fmt.Sprintf("migration %d: virtual page 0x%x kept its physical page 0x%x", step, va, pg.PAddr))
 			}
+			news[va] = pg
+		}
+		// fresh: no other mapped page (migrated in this request or not) uses the new physical page
+		for _, va := range vas {
+			pg, ok := news[va]
+			if !ok {
+				continue
+			}
 			for _, o2 := range allVAddrs {
-				if o2 != va && model[o2].PAddr == pg.PAddr {
+				if o2 == va {
+					continue
+				}
+				cur := model[o2]
+				if inStep[o2] {
+					cur = news[o2]
+				}
+				if cur.PAddr == pg.PAddr {
 					problems = append(problems, fmt.Sprintf("migration %d: virtual page 0x%x now shares physical page 0x%x with virtual page 0x%x", step, va, pg.PAddr, o2))
 				}
 			}
+		}
+		for va, pg := range news {
 			model[va] = pg
 		}
-		// the request the destination GPU's command processor received
-		if len(migReqs) != step+1 {
-			problems = append(problems, fmt.Sprintf("after migration %d the command processors have received %d page-migration requests in total, want %d", step, len(migReqs), step+1))
+		// the requests the destination GPU's command processor received: exactly one per
+		// page, each answered before the driver reported the migration to the MMU
+		want := migBase + len(vas)
+		got := len(migReqs)
+		migBaseNow := migBase
+		migBase = want
+		if got != want {
+			problems = append(problems, fmt.Sprintf(
+				"migration %d (%d pages %x, requested by GPU %d) was reported to the MMU when the command processors had received %d page-migration requests for it, want exactly one per page (%d)",
+				step, len(vas), vas, s.To, got-migBaseNow, len(vas)))
 			return
 		}
-		mr := migReqs[step]
-		hostGPU := int(old.DeviceID)
-		if mr.gpu != s.To || mr.msg.ToReadFromPhysicalAddress != old.PAddr || mr.msg.ToWriteToPhysicalAddress != model[va].PAddr ||
-			mr.msg.PageSize != pageSize || mr.msg.DestinationPMCPort != pmcPorts[hostGPU-1] {
-			pmcName := "<nil>"
-			if mr.msg.DestinationPMCPort != nil {
-				pmcName = mr.msg.DestinationPMCPort.Name()
+		used := map[int]bool{}
+		for _, va := range vas {
+			old := olds[va]
+			hostGPU := int(old.DeviceID)
+			found := -1
+			for k := migBaseNow; k < want; k++ {
+				if !used[k] && migReqs[k].msg.ToReadFromPhysicalAddress == old.PAddr {
+					found = k
+					break
+				}
 			}
-			problems = append(problems, fmt.Sprintf(
-				"migration %d (virtual page 0x%x, GPU %d -> GPU %d): command processor %d was asked to copy %d bytes from 0x%x (PMC %s) to 0x%x; the page was at 0x%x on GPU %d (PMC %s) and is now mapped to 0x%x",
-				step, va, hostGPU, s.To, mr.gpu, mr.msg.PageSize, mr.msg.ToReadFromPhysicalAddress, pmcName,
-				mr.msg.ToWriteToPhysicalAddress, old.PAddr, hostGPU, pmcPorts[hostGPU-1].Name(), model[va].PAddr))
+			if found < 0 {
+				problems = append(problems, fmt.Sprintf("migration %d: no command processor was asked to copy virtual page 0x%x from its old physical page 0x%x", step, va, old.PAddr))
+				continue
+			}
+			used[found] = true
+			mr := migReqs[found]
+			if mr.gpu != s.To || mr.msg.ToWriteToPhysicalAddress != model[va].PAddr ||
+				mr.msg.PageSize != pageSize || mr.msg.DestinationPMCPort != pmcPorts[hostGPU-1] {
+				pmcName := "<nil>"
+				if mr.msg.DestinationPMCPort != nil {
+					pmcName = mr.msg.DestinationPMCPort.Name()
+				}
+				problems = append(problems, fmt.Sprintf(
+					"migration %d (virtual page 0x%x, GPU %d -> GPU %d): command processor %d was asked to copy %d bytes from 0x%x (PMC %s) to 0x%x; the page was at 0x%x on GPU %d (PMC %s) and is now mapped to 0x%x",
+					step, va, hostGPU, s.To, mr.gpu, mr.msg.PageSize, mr.msg.ToReadFromPhysicalAddress, pmcName,
+					mr.msg.ToWriteToPhysicalAddress, old.PAddr, hostGPU, pmcPorts[hostGPU-1].Name(), model[va].PAddr))
+			}
+			if !mr.answered {
+				problems = append(problems, fmt.Sprintf("migration %d was reported to the MMU before command processor %d acknowledged the copy of virtual page 0x%x", step, mr.gpu, va))
+			}
 		}
 	}
 	mmu.TickFn = func(cycle uint64) bool {
@@ -366,17 +474,22 @@ func RunDriverCase(c DriverCase) (res stats.Result) {
 					step := next - 1
 					rspCount[step]++
 					s := c.Steps[step]
-					va := vaddrOf[pageKey{s.Buf, s.Page}]
-					if len(rsp.VAddr) != 1 || rsp.VAddr[0] != va || !rsp.RspToTop {
-						problems = append(problems, fmt.Sprintf("migration %d: response names virtual pages %x (RspToTop=%v), the request was for 0x%x", step, rsp.VAddr, rsp.RspToTop, va))
+					var vas []uint64
+					for _, pr := range s.pages() {
+						vas = append(vas, vaddrOf[pageKey{pr.Buf, pr.Page}])
+					}
+					if !sameSet(rsp.VAddr, vas) || !rsp.RspToTop {
+						problems = append(problems, fmt.Sprintf("migration %d: response names virtual pages %x (RspToTop=%v), the request was for %x", step, rsp.VAddr, rsp.RspToTop, vas))
 					}
 					judge(step)
-					// what mmu.Comp.processMigrationReturn does
-					if pg, ok := pt.Find(pid, va); ok {
-						pg.IsMigrating = false
-						pg.IsPinned = true
-						pt.Update(pg)
-						model[va] = pg
+					// what mmu.Comp.processMigrationReturn does (for every page of the request)
+					for _, va := range vas {
+						if pg, ok := pt.Find(pid, va); ok {
+							pg.IsMigrating = false
+							pg.IsPinned = true
+							pt.Update(pg)
+							model[va] = pg
+						}
 					}
 					waiting = false
 					nextAt = cycle + uint64(1)
@@ -402,24 +515,39 @@ func RunDriverCase(c DriverCase) (res stats.Result) {
 		if !mmuPort.CanSend() {
 			return progress
 		}
-		va := vaddrOf[pageKey{s.Buf, s.Page}]
-		page := model[va]
-		// what mmu.Comp.createMigrationRequest / sendMigrationToDriver do
-		accessed[va] = append(accessed[va], page.DeviceID)
+		// what mmu.Comp.createMigrationRequest / sendMigrationToDriver do, for
+		// every page the request carries
+		var vas []uint64
+		var accessing []uint64
+		for _, pr := range s.pages() {
+			va := vaddrOf[pageKey{pr.Buf, pr.Page}]
+			vas = append(vas, va)
+			accessed[va] = append(accessed[va], model[va].DeviceID)
+			accessing = append(accessing, accessed[va]...)
+		}
+		page := model[vas[0]]
+		for _, va := range vas {
+			if model[va].DeviceID != page.DeviceID {
+				panic("harness: pages of one request live on different GPUs")
+			}
+		}
 		req := vm.NewPageMigrationReqToDriver(mmuPort.AsRemote(), mmuPortOfDriver.AsRemote())
 		req.ID = sim.GetIDGenerator().Generate()
 		req.PID = pid
 		req.PageSize = page.PageSize
 		req.CurrPageHostGPU = page.DeviceID
-		req.MigrationInfo = &vm.PageMigrationInfo{GPUReqToVAddrMap: map[uint64][]uint64{uint64(s.To): {va}}}
-		req.CurrAccessingGPUs = uniq(accessed[va])
+		req.MigrationInfo = &vm.PageMigrationInfo{GPUReqToVAddrMap: map[uint64][]uint64{uint64(s.To): append([]uint64(nil), vas...)}}
+		req.CurrAccessingGPUs = uniq(accessing)
 		req.RespondToTop = true
 		if err := mmuPort.Send(req); err != nil {
 			panic("harness: send failed after CanSend")
 		}
-		page.IsMigrating = true
-		pt.Update(page)
-		model[va] = page
+		for _, va := range vas {
+			pg := model[va]
+			pg.IsMigrating = true
+			pt.Update(pg)
+			model[va] = pg
+		}
 		current = req
 		waiting = true
 		if next > 0 && cycle <= nextAt+1 && c.Steps[next].Gap <= 1 {
@@ -446,12 +574,20 @@ func RunDriverCase(c DriverCase) (res stats.Result) {
 	again := false
 	seen := map[pageKey]bool{}
 	dstHasOther := false
+	severalPages := false
+	totalPages := 0
 	for _, s := range c.Steps {
-		k := pageKey{s.Buf, s.Page}
-		if seen[k] {
-			again = true
+		totalPages += len(s.pages())
+		if len(s.More) > 0 {
+			severalPages = true
 		}
-		seen[k] = true
+		for _, pr := range s.pages() {
+			k := pageKey{pr.Buf, pr.Page}
+			if seen[k] {
+				again = true
+			}
+			seen[k] = true
+		}
 		for _, b := range c.Bufs {
 			if !b.Unified && b.GPU == s.To {
 				dstHasOther = true
@@ -459,11 +595,12 @@ func RunDriverCase(c DriverCase) (res stats.Result) {
 		}
 	}
 	add(again, "page-migrates-twice")
+	add(severalPages, "several-pages-per-request")
 	add(dstHasOther, "destination-gpu-holds-other-buffers")
 	add(overlapped, "next-request-during-restart-phase")
 	add(c.Log2PageSize != 12, "page-size-not-4k")
 	res.Labels = labels
-	res.NonTrivial = len(c.Steps) >= 2 && (dstHasOther || again)
+	res.NonTrivial = (len(c.Steps) >= 2 && (dstHasOther || again)) || severalPages
 
 	if len(problems) > 0 {
 		res.Violation = strings.Join(problems, "; ")
@@ -475,8 +612,8 @@ func RunDriverCase(c DriverCase) (res stats.Result) {
 			return
 		}
 	}
-	if len(migReqs) != len(c.Steps) {
-		res.Violation = fmt.Sprintf("%d migrations, but the command processors received %d page-migration requests", len(c.Steps), len(migReqs))
+	if len(migReqs) != totalPages {
+		res.Violation = fmt.Sprintf("%d migration requests for %d pages, but the command processors received %d page-migration requests", len(c.Steps), totalPages, len(migReqs))
 		return
 	}
 	// final sweep: nothing moved after the last judgement
@@ -488,6 +625,25 @@ func RunDriverCase(c DriverCase) (res stats.Result) {
 		}
 	}
 	return res
+}
+
+func sameSet(a, b []uint64) bool {
+	if len(a) != len(b) {
+		return false
+	}
+	n := map[uint64]int{}
+	for _, v := range a {
+		n[v]++
+	}
+	for _, v := range b {
+		n[v]--
+	}
+	for _, k := range n {
+		if k != 0 {
+			return false
+		}
+	}
+	return true
 }
 
 func uniq(in []uint64) []uint64 {
@@ -521,18 +677,36 @@ func validateDriver(c DriverCase) error {
 		}
 	}
 	for i, s := range c.Steps {
-		if s.Buf < 0 || s.Buf >= len(c.Bufs) || !c.Bufs[s.Buf].Unified || s.Page < 0 || s.Page >= c.Bufs[s.Buf].Pages || s.To < 1 || s.To > c.GPUs || s.Gap < 0 {
+		if s.To < 1 || s.To > c.GPUs || s.Gap < 0 {
 			return fmt.Errorf("bad step %d", i)
 		}
-		k := [2]int{s.Buf, s.Page}
-		h := host[k]
-		if h == 0 {
-			h = 1
+		seen := map[[2]int]bool{}
+		first := 0
+		for j, pr := range s.pages() {
+			if pr.Buf < 0 || pr.Buf >= len(c.Bufs) || !c.Bufs[pr.Buf].Unified || pr.Page < 0 || pr.Page >= c.Bufs[pr.Buf].Pages {
+				return fmt.Errorf("bad page in step %d", i)
+			}
+			k := [2]int{pr.Buf, pr.Page}
+			if seen[k] {
+				return fmt.Errorf("step %d lists a page twice", i)
+			}
+			seen[k] = true
+			h := host[k]
+			if h == 0 {
+				h = 1
+			}
+			if h == s.To {
+				return fmt.Errorf("step %d migrates a page to its own host", i)
+			}
+			if j == 0 {
+				first = h
+			} else if h != first {
+				return fmt.Errorf("step %d lists pages of different hosts", i)
+			}
 		}
-		if h == s.To {
-			return fmt.Errorf("step %d migrates a page to its own host", i)
+		for _, pr := range s.pages() {
+			host[[2]int{pr.Buf, pr.Page}] = s.To
 		}
-		host[k] = s.To
 	}
 	return nil
 }
